@@ -11,6 +11,7 @@ import TRV.Oracle.Wire
 import TRV.Oracle.Drivers
 import TRV.Oracle.Timed
 import TRV.Oracle.Wrapper
+import TRV.Oracle.Classify
 import TRV.Oracle.Net
 /-! Line-protocol driver: one case per input line, one answer per output line. Core-only. -/
 open TRV.Oracle
@@ -20,7 +21,7 @@ def allHandlers : List (String × Handler) :=
   TRV.Oracle.Multi.handlers ++ TRV.Oracle.Policy.handlers ++ TRV.Oracle.Params.handlers ++
   TRV.Oracle.Enrich.handlers ++ TRV.Oracle.Sync.handlers ++ TRV.Oracle.Alloc.handlers ++
   TRV.Oracle.Wire.handlers ++ TRV.Oracle.Drivers.handlers ++ TRV.Oracle.Timed.handlers ++
-  TRV.Oracle.Wrapper.handlers ++ TRV.Oracle.Net.handlers
+  TRV.Oracle.Wrapper.handlers ++ TRV.Oracle.Classify.handlers ++ TRV.Oracle.Net.handlers
 
 def step (line : String) : String :=
   match (line.trimAscii.toString.splitOn " ").filter (· ≠ "") with
